@@ -59,7 +59,8 @@ class ProgGen:
 
     def str_lit(self):
         return repr(self.r.choice(['a', 'hello', 'Hello World', '', ' pad ', 'x y', 'line1\nline2', 'tab\there',
-                                   'trail  ', 'UP', '42', "it's", 'end.', 'cr\rlf', 'crlf\r\n']))
+                                   'trail  ', 'UP', '42', "it's", 'end.', 'cr\rlf', 'crlf\r\n', 'ff\x0cvt\x0b', 'nel\x85ls\u2028',
+                                   'caf\xe9 \u4f60\u597d \U0001f600', 'nul\x00in', 'q"uote\\back']))
 
     def int_expr(self, depth=0, local=None):
         r = self.r
